@@ -116,4 +116,8 @@ def diagTexts (d : Diag) : List Str :=
        d.children.flatMap (fun c => match c.span with | some _ => (truthy c.label).toList | none => [])) ++
   d.children.flatMap (fun c => (truthy c.message).toList)
 
+/-- number of UTF-8 bytes of a text, by Lean's own `Char.utf8Size` (independent of the model's
+    `utf8Len`): what `ast` reports as `col_offset` for a node preceded by this text on its line -/
+def byteLen (s : Str) : Nat := (s.map Char.utf8Size).sum
+
 end GuppyVerif.Render
